@@ -3520,9 +3520,14 @@ func UnmarshalPrefixSID(psid *api.PrefixSID) (*bgp.PathAttributePrefixSID, error
 		switch tlv := raw.GetTlv().(type) {
 		case *api.PrefixSID_TLV_L3Service:
 			v := tlv.L3Service
-			tlvLength, tlvs, err := UnmarshalSubTLVs(v.SubTlvs)
+			_, tlvs, err := UnmarshalSubTLVs(v.SubTlvs)
 			if err != nil {
 				return nil, err
+			}
+			// TLV value: 1 byte of Reserved followed by the Sub TLVs
+			tlvLength := uint16(1)
+			for _, t := range tlvs {
+				tlvLength += uint16(t.Len())
 			}
 			o := &bgp.SRv6L3ServiceAttribute{
 				TLV: bgp.TLV{
@@ -3530,17 +3535,24 @@ func UnmarshalPrefixSID(psid *api.PrefixSID) (*bgp.PathAttributePrefixSID, error
 					Length: tlvLength,
 				},
 			}
-			s.Length += tlvLength
 			// Storing Sub TLVs in a Service TLV
 			o.SubTLVs = append(o.SubTLVs, tlvs...)
 			// Adding Service TLV to Path Attribute TLV slice.
 			s.TLVs = append(s.TLVs, o)
+			// The Path Attribute carries the TLV with its 3 bytes of header
+			s.Length += tlvLength + 3
+		case *api.PrefixSID_TLV_L2Service:
+			_, tlvs, err := UnmarshalSubTLVs(tlv.L2Service.SubTlvs)
+			if err != nil {
+				return nil, err
+			}
+			o := bgp.NewSRv6ServiceTLV(bgp.TLVTypeSRv6L2Service, tlvs...)
+			s.TLVs = append(s.TLVs, o)
+			s.Length += uint16(o.Len())
 		default:
 			return nil, fmt.Errorf("unknown or not implemented Prefix SID type: %+v", tlv)
 		}
 	}
-	// Final Path Attribute Length is 3 bytes of the Path Attribute header longer
-	s.Length += 3
 	return s, nil
 }
 
